@@ -263,6 +263,37 @@ class Server:
             return ("ok", j["result"])
         return ("error", j.get("error"))
 
+    def call_batch(self, calls, timeout=None):
+        """calls = [(method, params)]: one JSON-RPC batch; returns one ('ok'|'error'|'timeout'|'closed', value) per call, in call order"""
+        timeout = self.timeout if timeout is None else timeout
+        ids = []
+        arr = []
+        for m, p_ in calls:
+            self.id += 1
+            ids.append(self.id)
+            arr.append({"jsonrpc": "2.0", "id": self.id, "method": m, "params": p_})
+        try:
+            c = http.client.HTTPConnection("127.0.0.1", self.port, timeout=timeout)
+            c.request("POST", "/", body=json.dumps(arr, ensure_ascii=False).encode("utf-8"), headers={"Content-Type": "application/json"})
+            r = c.getresponse()
+            data = r.read()
+            c.close()
+        except socket.timeout:
+            self.timeouts += 1
+            return [("timeout", None)] * len(calls)
+        except (OSError, http.client.HTTPException) as e:
+            return [("closed", str(e))] * len(calls)
+        try:
+            j = json.loads(data)
+            by = {x.get("id"): x for x in j} if isinstance(j, list) else {}
+        except Exception:
+            by = {}
+        out = []
+        for i in ids:
+            x = by.get(i)
+            out.append(("closed", f"no answer in the batch response: {data[:200]!r}") if x is None else (("ok", x["result"]) if "result" in x else ("error", x.get("error"))))
+        return out
+
     def alive(self):
         return self.proc.poll() is None
 
